@@ -786,6 +786,11 @@ func sameResultOrders(rng *rand.Rand, sh *model.Frame) []qframe.Order {
 			orders = append(orders, qframe.Order{Column: col.Name, Reverse: rng.Intn(2) == 0, NullLast: rng.Intn(2) == 0})
 		}
 	}
+	if rng.Intn(2) == 0 && len(orders) > 0 {
+		// no tie break: the order of ties is free (C03) but it may only depend on the rows' values and logical order,
+		// never on the physical layout, otherwise a rebuilt frame would not yield Equal results
+		return orders
+	}
 	return append(orders, qframe.Order{Column: model.IDCol, Reverse: rng.Intn(2) == 0})
 }
 
